@@ -5,6 +5,7 @@ from vlib.cfg import cfg_of, node_calls, node_exprs
 from vlib.flow import dominators, postdominators, NORMAL, Explorer, states_at, reachable_avoiding
 from vlib import prov, q
 from vlib.locks import ClassLocks
+from rules import common
 
 META = {
     "explanation": (
@@ -49,6 +50,33 @@ TRIAGED = {
 }
 
 
+def _introspection_only(prog, fi, _seen=None):
+    """a new method of the pool that writes nothing, calls nothing of the pool, only builds and returns a value, and is
+    referenced nowhere in the package (a property / __repr__ for the application's eyes)"""
+    from vlib.inline import known_functions
+    if ("%s.%s" % (fi.cls.name, fi.name) if fi.cls else fi.name) in known_functions().get(fi.module, set()):
+        return False
+    for x in ast.walk(fi.node):
+        if isinstance(x, (ast.Attribute, ast.Subscript, ast.Name)) and isinstance(getattr(x, "ctx", None), (ast.Store, ast.Del)) and not isinstance(x, ast.Name):
+            return False
+        if isinstance(x, ast.Call) and isinstance(x.func, ast.Attribute) and isinstance(x.func.value, ast.Name) and x.func.value.id == "self":
+            return False
+        if isinstance(x, (ast.While, ast.With, ast.Raise, ast.Global, ast.Nonlocal, ast.Yield, ast.YieldFrom)):
+            return False
+    if fi.name.startswith("__") and fi.name.endswith("__") and fi.name not in ("__repr__", "__str__"):
+        return False
+    seen = set(_seen or ()) | set([fi.fq])
+    for other in prog.funcs.values():
+        if other is fi:
+            continue
+        for x in ast.walk(other.node):
+            if isinstance(x, ast.Attribute) and x.attr == fi.name:
+                # used by another reporting accessor (a __repr__ built from the properties) is still reporting only
+                if other.fq in seen or other.cls is not fi.cls or not _introspection_only(prog, other, seen):
+                    return False
+    return True
+
+
 def check(ck):
     prog = ck.prog
     ci = prog.cls(TP, "ThreadPool")
@@ -64,8 +92,12 @@ def check(ck):
 
     # ---- C09.1 hand-off ------------------------------------------------------------------------------
     g = cfg_of(fenq)
-    puts = [(n, c) for n in g.live_nodes() for c in node_calls(n) if dump(c.func) == "self._queue.put"]
-    ck.require(len(puts) == 1, "C09.1", "%s: one put" % q.fn(fenq), "one put", "enqueue performs %d puts" % len(puts), q.loc(fenq, fenq.node))
+    puts = [(n, c) for n in g.live_nodes() for c in node_calls(n) if dump(c.func) in common.QUEUE_PUTS]
+    # one put per path (alternative puts in the arms of a test - a waiting one, an immediate one - are one put each)
+    from vlib.flow import reachable_avoiding as _ra_p
+    twice = [n for (n, _c) in puts if any(m.id != n.id and m.id in _ra_p(g, n.id, set(), lambda l: l != "exc") for (m, _c2) in puts)]
+    ck.require(len(puts) >= 1 and not twice, "C09.1", "%s: one put" % q.fn(fenq), "one put", "enqueue performs %d puts%s" % (
+        len(puts), " (two on one path)" if twice else ""), q.loc(fenq, fenq.node))
     for (n, c) in puts:
         item = c.args[0] if c.args else kwarg(c, "item")
         item_node = n
@@ -87,7 +119,8 @@ def check(ck):
                    "the queued item is `%s`: not the 4-tuple (method, args, kwargs, future) of the caller's values" % (dump(item)[:60] if item is not None else None),
                    q.loc(fenq, n))
         pd = postdominators(g, [g.return_exit.id], NORMAL)
-        ck.require(n.id in pd[g.entry.id], "C09.1", "%s: put on every normal path" % q.fn(fenq), "post-dominates the entry",
+        ck.require(n.id in pd[g.entry.id] or all(common.must_pass(g, r_.id, [m.id for (m, _c2) in puts]) for r_ in g.live_nodes() if r_.kind == "return"),
+                   "C09.1", "%s: put on every normal path" % q.fn(fenq), "post-dominates the entry",
                    "there is a normal path through enqueue that returns a future without queuing the task", q.loc(fenq, n))
         fut_defs = prov.rd_of(g).get(item_node.id, {}).get(dump(item.elts[3]), frozenset()) if isinstance(item, ast.Tuple) and len(item.elts) == 4 and isinstance(item.elts[3], ast.Name) else frozenset()
         for rn in [x for x in g.live_nodes() if x.kind == "return"]:
@@ -367,6 +400,10 @@ def check(ck):
                 ck.ok("C09.7", "%s: %s self.%s in `%s`" % (q.fn(fi), "write" if kind == "w" else "read", attr, stmt[:40]), "holds self.__lock", q.loc(fi, n))
             elif key in TRIAGED:
                 ck.ok("C09.7", "%s: self.%s in `%s` [triaged]" % (q.fn(fi), attr, stmt[:40]), "outside the lock, triaged: " + TRIAGED[key], q.loc(fi, n))
+            elif kind == "r" and _introspection_only(prog, fi):
+                # a reporting accessor (repr, a read-only property) nobody in the package calls: what it returns decides nothing
+                ck.ok("C09.7", "%s: self.%s in `%s` [introspection]" % (q.fn(fi), attr, stmt[:40]),
+                      "unlocked read in an accessor that only reports the value and is not used by the package", q.loc(fi, n))
             else:
                 ck.bad("C09.7", "%s: %s of self.%s in `%s`" % (q.fn(fi), "write" if kind == "w" else "read", attr, stmt[:50]),
                        "the pool state `%s` is %s without holding the pool lock" % (attr, "modified" if kind == "w" else "read"), q.loc(fi, n))
@@ -374,7 +411,7 @@ def check(ck):
     ck.floor("C09.7", 20)
 
     # ---- C09.8 worker accounting (shared with C10.7 / C10.7b) ------------------------------------------------------------
-    from rules import c10, common
+    from rules import c10
     common.import_rules(ck, c10, {"C10.7": "C09.8", "C10.7b": "C09.8", "C10.1": "C09.8", "C10.5": "C09.9", "C10.4": "C09.8"})
     ck.floor("C09.8", 8)
     ck.floor("C09.9", 8)
